@@ -10,8 +10,7 @@ from common import WORK, hexs, lean_driver, rng
 from props.c09 import err_name, model_out, outcome
 
 TARGETS = ["RdVerif.Props.C10", "RdVerif.Props.C10Entry"]
-THEOREMS = ["parse_total", "parseId_total", "accept_sound", "parseNuclide_total",
-            "ctor_errors_documented", "ctor_accept_sound", "remove_errors_documented"]
+THEOREMS = ["RdVerif.C10.parse_total", "RdVerif.C10.parseId_total", "RdVerif.C10.accept_sound", "RdVerif.C10.parseNuclide_total", "RdVerif.C10.ctor_errors_documented", "RdVerif.C10.ctor_accept_sound", "RdVerif.C10.remove_errors_documented"]
 PARTIAL = {}
 ASSUMPTIONS = [
     "model is exact for ASCII strings; strings with non-ASCII characters are judged directly by the property's "
